@@ -100,6 +100,7 @@ def sensitivity(patches):
         if base == "patch.diff":
             meta = json.load(open(os.path.join(os.path.dirname(patch), "meta.json")))
             pids = meta["property"] if isinstance(meta["property"], list) else [meta["property"]]
+            pids = pids + [x for x in meta.get("also_checked_by", []) if x not in pids]
             label = os.path.basename(os.path.dirname(patch))
         else:
             pids = [base.split("-")[0]]
